@@ -559,12 +559,12 @@ impl Monitor for C10 {
         v.extend(split_chunks("undefined", 0, 14 * 8, 14 * 8, 20));
         v.extend(split_chunks("sizeof", 0, 1, 1, 1));
         let n = match tier {
-            Tier::Quick => 12_000,
-            Tier::Thorough => 120_000,
+            Tier::Quick => 60_000,
+            Tier::Thorough => 600_000,
         };
-        v.extend(split_chunks("tree", seed_offset(seed, "C10t", 120_000), n, 120_000, 300));
-        v.extend(split_chunks("tree-folded", seed_offset(seed, "C10f", 120_000), n / 2, 120_000, 300));
-        v.extend(split_chunks("fold-vs-run", seed_offset(seed, "C10r", 60_000), n / 2, 60_000, 300));
+        v.extend(split_chunks("tree", seed_offset(seed, "C10t", 600_000), n, 600_000, 300));
+        v.extend(split_chunks("tree-folded", seed_offset(seed, "C10f", 600_000), n / 2, 600_000, 300));
+        v.extend(split_chunks("fold-vs-run", seed_offset(seed, "C10r", 300_000), n / 2, 300_000, 300));
         v
     }
     fn run_case(&self, kind: &str, idx: u64) -> CaseResult {
